@@ -67,7 +67,7 @@ def model_lines(case, rec):
 
 
 def has_model(case):
-    return 'fixed' in case['alpha'] or 'single' in case['alpha']
+    return ('fixed' in case['alpha'] or 'single' in case['alpha']) and not case.get('reserve')
 
 
 # ---------------------------------------------------------------------------------------------
@@ -383,8 +383,10 @@ def check_c14(case, rec, m, tally):
                 ok = False
                 break
             mv += p * q
-        if ok and not close_f(v, c['cash'] + mv, rel=1e-9, abs_=1e-6):
-            oracle.append(dict(what='equity at %d is %r; cash + holdings valued at that close give %r' % (t, v, c['cash'] + mv), key='equity-marked-at-close'))
+        want_v = c['cash'] + mv + (case.get('reserve') or 0.0)
+        if ok and not close_f(v, want_v, rel=1e-9, abs_=1e-6):
+            oracle.append(dict(what='equity at %d is %r; cash + holdings valued at that close%s give %r' % (
+                t, v, ' + the reserve portfolio' if case.get('reserve') else '', want_v), key='equity-marked-at-close'))
             break
     # the allocation table
     if rec['err'] is None and rec['target_allocations']:
@@ -862,6 +864,10 @@ def run(prop, tier, seed, n_cases, corpus=()):
     while first or remaining > 0:
         k = min(BATCH, remaining)
         batch = (todo if first else []) + [k7_gen.gen_case(rng, ('rotation' if prop == 'C18' and j % 2 == 0 else FAMILY[prop])) for j in range(k)]
+        if prop == 'C14':
+            for j, c_ in enumerate(batch):
+                if j % 4 == 3 and 'reserve' not in c_:
+                    c_['reserve'] = rng.choice([250000.0, 1000.0, 123456.78])
         remaining -= k
         r = run_batch(prop, tier, rng, batch, n_corpus if first else 0)
         first = False
